@@ -351,14 +351,17 @@ def check_directory(mtjs_a, mtjs_b, src, dest):
     d = workdir()
     sd = os.path.join(d, 'srcdir')
     os.makedirs(sd)
-    for name, mts in (('one', a), ('two', b)):
+    names = ('part.0', 'part.1')       # as `transform --split` names its parts: the same stem, different extensions
+    for name, mts in zip(names, (a, b)):
         with open(os.path.join(sd, name), 'w', encoding='utf-8') as f:
             f.write(encode(mts, src))
     (st, so, se, exc), argv = convert(sd, src, os.path.join(d, 'ignored'), dest)
     if st != 0:
         bad('cli-failed', 'exit status %r %s' % (st, cli.describe(exc)))
         return out
-    for name, mts in (('one', a), ('two', b)):
+    if sorted(os.listdir(sd)) != sorted(names + tuple(n + '.dest' for n in names)):
+        bad('directory-files', 'the source directory now holds %r' % sorted(os.listdir(sd)))
+    for name, mts in zip(names, (a, b)):
         dp = os.path.join(sd, name + '.dest')
         if not os.path.exists(dp):
             bad('missing-output', '%s.dest was not written (files: %r)' % (name, sorted(os.listdir(sd))))
@@ -369,6 +372,22 @@ def check_directory(mtjs_a, mtjs_b, src, dest):
                 bad('content', x)
         except codecs.DecodeError as e:
             bad('undecodable', '%s.dest: %s' % (name, e))
+    if src.startswith('export') and dest.startswith('export') and not out:
+        # a second run over the same directory (it now also holds the *.dest files, which are export files):
+        # every file is converted again, here to the other export version
+        other = 'export4' if dest == 'export3' else 'export3'
+        (st, so, se, exc), argv = convert(sd, src, os.path.join(d, 'ignored'), other)
+        if st != 0:
+            bad('cli-failed', 'second run over the directory: exit status %r %s' % (st, cli.describe(exc)))
+            return out
+        for name, mts in zip(names, (a, b)):
+            for fn in (name + '.dest', name + '.dest.dest'):
+                try:
+                    carried = CARRY[src] & CARRY[dest] & CARRY[other] if fn.endswith('.dest.dest') else CARRY[src] & CARRY[other]
+                    for x in compare(project(mts, carried, False), decode_file(os.path.join(sd, fn), other), other, fn + ' after the second run'):
+                        bad('content', x)
+                except (codecs.DecodeError, IOError) as e:
+                    bad('undecodable', '%s after the second run (%s): %s' % (fn, other, e))
     return out
 
 
@@ -516,7 +535,11 @@ def check_trans(mtjs, combo_i):
     if st != 0:
         bad('cli-failed', 'exit status %r %s' % (st, cli.describe(exc)))
         return out
-    got = open(dest, encoding='utf-8').read()
+    try:
+        got = codecs.read_out(dest)
+    except codecs.DecodeError as e:
+        bad('undecodable', str(e))
+        return out
     if got != api_text:
         i = next((i for i in range(min(len(got), len(api_text))) if got[i] != api_text[i]), min(len(got), len(api_text)))
         bad('cli-differs-from-api', 'destination file differs from the API pipeline at offset %d: %r vs %r'
